@@ -21,7 +21,8 @@ TRUSTED = ["Model/Transcript.lean is hand-written; tied to gene/transcript.py, g
 ASSUMPTIONS = ["exon and CDS lists are passed in ascending order (as every parser of the library produces them)",
                "whole-chromosome parent (sequence length >= every coordinate), no parent, or a sequence-chunk parent "
                "(seq_chunk_to_parent) for the k*/cr* ops; codons / sequences / identity on chunks are C07",
-               "CDS frames are irrelevant to coordinate conversion (built with construct_frames_from_location)"]
+               "cds_frames take every value (start frame 0/1/2 rotated over the placements; every frame vector on the small "
+               "'reading frames' scope); lines without `F …` use consistent frames starting at ZERO"]
 MODEL_OPS = None
 
 
@@ -72,11 +73,27 @@ def cds_blocks(exons, st, a, b):
     return out
 
 
-def enc_tx(plen, st, exons, cds):
+def enc_tx(plen, st, exons, cds, frames=None):
+    """`frames` = cds_frames as handed to the constructor (one per CDS block, in the order of the blocks);
+    None = consistent frames starting at ZERO (computed by the implementation side)"""
     s = f"{'N' if plen is None else plen} {st} {len(exons)} " + " ".join(f"{a} {b}" for a, b in exons)
     if cds is None:
         return s + " nc"
-    return s + f" {len(cds)} " + " ".join(f"{a} {b}" for a, b in cds)
+    s += f" {len(cds)} " + " ".join(f"{a} {b}" for a, b in cds)
+    if frames is not None:
+        s += " F " + " ".join(str(f) for f in frames)
+    return s
+
+
+def consistent_frames(cds, st, start_frame):
+    """frames of the CDS blocks (in block order) of an uninterrupted reading frame whose 5'-most block has
+    `start_frame` (what CDSInterval.construct_frames_from_location computes)"""
+    blocks = cds if st != "-" else cds[::-1]
+    out, f = [], start_frame
+    for s, e in blocks:
+        out.append(f)
+        f = (f + (e - s)) % 3
+    return out if st != "-" else out[::-1]
 
 
 def placement_kind(exons, st, a, b, L):
@@ -116,8 +133,8 @@ def structure_lines(plen, st, exons, G, full=True):
         yield f"utr3 {tx}"
 
 
-def placement_lines(plen, st, exons, cds, full=True, rng=None):
-    tx = enc_tx(plen, st, exons, cds)
+def placement_lines(plen, st, exons, cds, full=True, rng=None, frames=None):
+    tx = enc_tx(plen, st, exons, cds, frames)
     L = sum(e - s for s, e in exons)
     Ld = sum(e - s for s, e in cds)
     hi = max(e for _, e in exons) + 1
@@ -166,9 +183,9 @@ def interval_lines(plen, st, exons, cds, G):
         yield f"ci2d {tx} 0 1 +"
 
 
-def chunk_lines(plen, st, exons, cds, ws, we, wst, rng, twin_ops=True):
+def chunk_lines(plen, st, exons, cds, ws, we, wst, rng, twin_ops=True, frames=None):
     """ops on the transcript built on the chunk [ws, we) (strand wst) of a chromosome of length plen"""
-    k = f"{enc_tx(plen, st, exons, cds)} {ws} {we} {wst}"
+    k = f"{enc_tx(plen, st, exons, cds, frames)} {ws} {we} {wst}"
     L = sum(e - s for s, e in exons)
     hi = max(e for _, e in exons) + 1
     wl = we - ws
@@ -188,6 +205,7 @@ def chunk_lines(plen, st, exons, cds, ws, we, wst, rng, twin_ops=True):
         yield f"kt2c {k} -1 {L}"
         if cds is not None:
             yield f"kc2d {k} -1 {hi}"
+            yield f"kaa {k} -1 {hi}"
             yield f"kd2t {k} -1 {Ld}"
             yield f"kt2d {k} -1 {L}"
             yield f"kd2c {k} -1 {Ld}"
@@ -281,7 +299,11 @@ def cases(run):
                         for tag in placement_kind(exons, st, a, b, L):
                             run.count("exh-placement:" + tag)
                         run.count(f"exh-placement:cds-blocks={len(cds)}")
-                        yield from placement_lines(plen, st, exons, cds, full=not quick, rng=rng)
+                        # the 5'-most CDS block starts in frame 0 / 1 / 2 in turn (5'-partial CDSs included)
+                        sf = (a + 2 * b + len(exons)) % 3
+                        run.count(f"exh-placement:start-frame={sf}")
+                        yield from placement_lines(plen, st, exons, cds, full=not quick, rng=rng,
+                                                   frames=consistent_frames(cds, st, sf))
                 # intervals: sample of structures, one placement (or non-coding)
                 if first_time and rng.random() < (1 / 40):
                     run.count("exh-interval-structures")
@@ -305,7 +327,8 @@ def cases(run):
         plen = kG + 2
         for st in "+-":
             placements = [None] + [cds_blocks(exons, st, a, b) for a in range(L) for b in range(a + 1, L + 1)]
-            for cds in placements:
+            for pi, cds in enumerate(placements):
+                fr = None if cds is None else consistent_frames(cds, st, pi % 3)
                 for ws in range(0, plen):
                     for we in range(ws + 1, plen + 1):
                         for wst in "+-":
@@ -313,10 +336,43 @@ def cases(run):
                             cut = ws > exons[0][0] or we < exons[-1][1]
                             run.count("chunk:cuts-transcript" if cut else "chunk:contains-transcript")
                             yield from chunk_lines(plen, st, exons, cds, ws, we, wst, rng,
-                                                   twin_ops=True)
+                                                   twin_ops=True, frames=fr)
                             if rng.random() < 1 / 150:
                                 run.count("chunk:interval-samples")
                                 yield from chunk_interval_lines(plen, st, exons, cds, ws, we, wst)
+    # ---- reading frames: EVERY frame vector (each CDS block 0/1/2, consistent or not) on a small scope
+    fG = 6 if quick else 8
+    EXHAUSTIVE_NOTE += (f"; reading frames: <= 2 exons on a genome of length {fG}, both strands, EVERY CDS placement, EVERY "
+                        "assignment of a frame 0/1/2 to each CDS block (uninterrupted, frameshifted, 5'-partial): amino-acid "
+                        "index and the CDS position conversions, chromosome-built and built on one chunk; the main scopes "
+                        "rotate the start frame 0/1/2 over the placements")
+    for exons in structures(2, fG, False):
+        L = sum(e - s for s, e in exons)
+        plen = fG + 2
+        hi = max(e for _, e in exons) + 1
+        for st in "+-":
+            for a in range(L):
+                for b in range(a + 1, L + 1):
+                    cds = cds_blocks(exons, st, a, b)
+                    Ld = b - a
+                    for frames in itertools.product((0, 1, 2), repeat=len(cds)):
+                        run.count("frames:vectors")
+                        if list(frames) != consistent_frames(cds, st, frames[0] if st == "+" else frames[-1]):
+                            run.count("frames:frameshifted")
+                        if (frames[0] if st == "+" else frames[-1]) != 0:
+                            run.count("frames:5p-partial")
+                        tx = enc_tx(plen, st, exons, cds, frames)
+                        yield f"aa {tx} -1 {hi}"
+                        yield f"c2d {tx} -1 {hi}"
+                        yield f"d2c {tx} -1 {Ld}"
+                        if (a + b + sum(frames)) % 4 == 0:
+                            ws = rng.randint(0, plen - 1)
+                            we = rng.randint(ws + 1, plen)
+                            k = f"{tx} {ws} {we} {rng.choice('+-')}"
+                            yield f"kaa {k} -1 {hi}"
+                            yield f"kc2d {k} -1 {hi}"
+                            yield f"cr2d {k} -1 {we - ws}"
+                            yield f"t2d {tx} -1 {L}"
     run.exhaustive = True
 
     # ---- random larger transcripts
@@ -367,7 +423,14 @@ def cases(run):
                 if len(merged) != len(cds):
                     run.count("rand:cds-merged-adjacent-blocks")
                 cds = merged
-        tx = enc_tx(plen, st, exons, cds)
+        frames = None
+        if cds is not None and rng.random() < 0.8:
+            if rng.random() < 0.75:
+                frames = consistent_frames(cds, st, rng.randint(0, 2))
+            else:
+                frames = [rng.randint(0, 2) for _ in cds]
+                run.count("rand:frames-as-given")
+        tx = enc_tx(plen, st, exons, cds, frames)
         Ld = sum(e - s for s, e in cds) if cds else 0
         # windows of positions around interesting places
         def window(center, span=6):
@@ -412,7 +475,7 @@ def cases(run):
                 we = rng.randint(ws + 1, plen)
             if we > ws:
                 run.count("rand:chunk")
-                yield from chunk_lines(plen, st, exons, cds, ws, we, rng.choice("+-"), rng)
+                yield from chunk_lines(plen, st, exons, cds, ws, we, rng.choice("+-"), rng, frames=frames)
                 k = f"{tx} {ws} {we} {rng.choice('+-')}"
                 for _ in range(2):
                     a = rng.randint(0, we - ws)
